@@ -50,15 +50,14 @@ def _default_for(spec):
         if isinstance(v, dict) and v.get("mode") == "none" and len(v) == 1:
             return v
         return {"mode": mode, "value": v}
-    return st.one_of(st.just({"mode": "none"}),
-                     st.tuples(specs.values(spec).map(pick), st.sampled_from(["const", "const", "callable"])).map(wrap))
+    with_default = st.tuples(specs.values(spec).map(pick), st.sampled_from(["const", "callable"])).map(wrap)
+    return st.one_of(st.just({"mode": "none"}), with_default, with_default)
 
 
 def _plain(v):
     from . import codec
     try:
-        codec.encode(v)
-        return True
+        return '"$o"' not in codec.dumps(v)  # opaque objects have no stable identity across realisations
     except TypeError:
         return False
 
